@@ -339,6 +339,7 @@ func c09(args []string) int {
 				judged++
 				perChecker[d.Checker]++
 				mu.Unlock()
+				ev.Eval(1) // one evaluation per judged replacement (programs without replacements are counted once above)
 				ev.Nontrivial(fmt.Sprintf("%s|%s|%d", p.ID, d.Checker, d.Offset))
 				kind, detail := c09Judge(p, pk, r.set, d, s, allowErr)
 				if kind == "" {
